@@ -36,6 +36,12 @@ AtEnd == IsReader /\ l = Len(T.ev)
 C11_ExactlyOnce == (AtEnd /\ ~T.closed) => (T.drained /\ NoDup(T.final.started) /\ SetOf(T.final.started) = 1..T.pushed
                                              /\ SetOf(T.final.fin) = 1..T.pushed /\ T.final.qlen = 0)
 C11_ClosedAtMostOnce == (AtEnd /\ T.closed) => (NoDup(T.final.started) /\ SetOf(T.final.started) \subseteq 1..T.pushed)
+\* "a handler may itself issue blocking requests ... without stalling": TryToReplaceLoop leaves a loop that is reading, so
+\* as long as nothing new has been dequeued since an (applied) replace, the queue cannot hold a message at quiescence
+Dq(n) == IF n = 0 THEN {} ELSE SetOf(T.ev[n].st.started) \cup SetOf(T.ev[n].st.gated)
+ClosedBy(n) == \E j \in 1..n : T.ev[j].act.a = "close" /\ T.ev[j].applied
+C11_NoStallReader == (R /\ ~ClosedBy(l)) =>
+                       \A k \in 1..l : (T.ev[k].act.a = "replace" /\ T.ev[k].applied /\ Dq(l) = Dq(k - 1)) => E.st.qlen = 0
 \* conformance only
 K11_Conforms == ~drift
 
